@@ -1,0 +1,22 @@
+package document
+
+import "fmt"
+
+// nextDocumentRelationshipID 返回主文档部件（word/_rels/document.xml.rels）中尚未使用的关系ID。
+//
+// 候选值从库一直使用的编号开始（"rId" + 已有关系数 + 2，rId1 保留给 styles.xml），
+// 因此从零创建的文档得到的ID与以前完全相同；如果该ID已被占用
+// （打开的文档的关系ID可能不连续、不从 rId2 开始，或根本不是 rIdN 形式），就继续向后查找，
+// 保证同一个关系部件内ID唯一。
+func (d *Document) nextDocumentRelationshipID() string {
+	used := map[string]bool{"rId1": true}
+	for _, rel := range d.documentRelationships.Relationships {
+		used[rel.ID] = true
+	}
+	for n := len(d.documentRelationships.Relationships) + 2; ; n++ {
+		id := fmt.Sprintf("rId%d", n)
+		if !used[id] {
+			return id
+		}
+	}
+}
